@@ -3,6 +3,7 @@ package schema
 import (
 	"fmt"
 	"math/rand"
+	"strings"
 )
 
 // Placement is one text obtained from a base text by inserting a comment at a token boundary.
@@ -92,6 +93,16 @@ func Placements(base string, rng *rand.Rand, max int) []Placement {
 			forms = append(forms,
 				struct{ name, ins string }{"end-of-line", " // eol"},
 				struct{ name, ins string }{"inline-block+line", " /* blk */ // eol"})
+		}
+		if class[k] == "after'}'" || class[k] == "after';'" {
+			// a stray separator (C-style "};"), which the parser skips where it accepts it
+			forms = append(forms, struct{ name, ins string }{"stray-semicolon", ";"})
+		}
+		if restOfLineBlank(base, o) && k%9 == 4 {
+			// line comments longer than a read buffer (4 KiB) and longer than two
+			for _, n := range []int{4200, 9100} {
+				forms = append(forms, struct{ name, ins string }{fmt.Sprintf("end-of-line-%d-bytes", n), " // " + strings.Repeat("long comment ", n/13)})
+			}
 		}
 		for _, f := range forms {
 			n++
